@@ -95,11 +95,18 @@ def run(p: Program, rep: Report, tier: str) -> None:
         if pa.exit != "return":
             continue
         if pa.value == NONE:
-            pos = [f for f, t in pa.facts if t]
+            # acceptance tests that held on this path: a prefix test / equality on the searched path
+            pos = [f for f, t in pa.facts if t and ((f[0] == "call" and f[1] == ("attr", ("param", "path"), "startswith")) or (f[0] == "cmp" and f[1] == "Eq" and ("param", "path") in (f[2], f[3])))]
             if pos:
                 rep.violation("R9.1", construct(search, text="return None after accept"), where(search), "search() returns None on a path where an entry was accepted")
             continue
         v = pa.value
+        if v[0] == "tuple" and len(v[1]) == 2 and v[1][0] == ("param", "path"):
+            # (path, <something looked up by the whole path>): an entry answered without the in-order scan of the table
+            rep.violation("R9.1", construct(search, text=f"return {show(v)[:60]}"), where(search),
+                          "search() answers with an entry looked up by the whole path, outside the in-order scan of the table: with overlapping prefixes (a '' default entry first, '/a' before '/a/b') "
+                          "a later entry that equals the path wins over the first entry that matches it")
+            continue
         if not (v[0] == "tuple" and len(v[1]) == 2 and v[1][0][0] == "unpack" and v[1][0][1][0] == "elem"):
             rep.undecide("R9.1", f"unrecognised return value {show(v)}")
             continue
